@@ -132,6 +132,79 @@ def run_seed(args: tuple[str, dict, str]) -> dict:
         shutil.rmtree(root, ignore_errors=True)
 
 
+class _RenameLocals(ast.NodeTransformer):
+    """Behaviour-preserving twin: every plain local variable of every function gets a fresh name."""
+
+    SCOPES = (ast.FunctionDef, ast.AsyncFunctionDef, ast.Lambda, ast.ListComp, ast.SetComp, ast.DictComp, ast.GeneratorExp, ast.ClassDef)
+
+    def __init__(self) -> None:
+        self.count = 0
+
+    def _own_nodes(self, fn: ast.AST):
+        stack = list(ast.iter_child_nodes(fn))
+        while stack:
+            n = stack.pop()
+            yield n
+            if not isinstance(n, self.SCOPES):
+                stack.extend(ast.iter_child_nodes(n))
+
+    def _rename_in(self, fn: ast.FunctionDef) -> None:
+        params = {a.arg for a in fn.args.posonlyargs + fn.args.args + fn.args.kwonlyargs}
+        params |= {a.arg for a in (fn.args.vararg, fn.args.kwarg) if a}
+        own = list(self._own_nodes(fn))
+        bound = {n.id for n in own if isinstance(n, ast.Name) and isinstance(n.ctx, ast.Store)}
+        blocked = set(params)
+        for n in own:
+            if isinstance(n, (ast.Global, ast.Nonlocal)):
+                blocked |= set(n.names)
+            elif isinstance(n, ast.ExceptHandler) and n.name:
+                blocked.add(n.name)
+            elif isinstance(n, ast.alias):
+                blocked.add((n.asname or n.name).split(".")[0])
+            elif isinstance(n, (ast.MatchAs, ast.MatchStar)) and n.name:
+                blocked.add(n.name)
+            elif isinstance(n, ast.MatchMapping) and n.rest:
+                blocked.add(n.rest)
+            elif isinstance(n, (ast.FunctionDef, ast.AsyncFunctionDef, ast.ClassDef)):
+                blocked.add(n.name)
+            if isinstance(n, self.SCOPES):
+                # names bound again inside a nested scope are left alone
+                for m in ast.walk(n):
+                    if isinstance(m, ast.Name) and isinstance(m.ctx, ast.Store):
+                        blocked.add(m.id)
+                    elif isinstance(m, ast.arg):
+                        blocked.add(m.arg)
+                    elif isinstance(m, (ast.Global, ast.Nonlocal)):
+                        blocked |= set(m.names)
+            if isinstance(n, ast.Call) and isinstance(n.func, ast.Name) and n.func.id in ("locals", "vars", "eval", "exec"):
+                return
+        mapping = {name: f"{name}_rn" for name in bound - blocked if not name.startswith("__")}
+        if not mapping:
+            return
+        for n in ast.walk(fn):
+            if isinstance(n, ast.Name) and n.id in mapping:
+                n.id = mapping[n.id]
+        self.count += len(mapping)
+
+    def visit_FunctionDef(self, node: ast.FunctionDef) -> ast.AST:
+        self.generic_visit(node)
+        self._rename_in(node)
+        return node
+
+    visit_AsyncFunctionDef = visit_FunctionDef
+
+
+class _NegateIf(ast.NodeTransformer):
+    """Behaviour-preserving twin: `if c: A else: B` becomes `if not c: B else: A` (elif chains are left alone)."""
+
+    def visit_If(self, node: ast.If) -> ast.AST:
+        self.generic_visit(node)
+        if node.orelse and not (len(node.orelse) == 1 and isinstance(node.orelse[0], ast.If)):
+            node.test = ast.UnaryOp(op=ast.Not(), operand=node.test)
+            node.body, node.orelse = node.orelse, node.body
+        return node
+
+
 def run_twin(args: tuple[str, str, str]) -> dict:
     pid, kind, src_root = args
     root = make_copy(Path(src_root))
@@ -143,6 +216,10 @@ def run_twin(args: tuple[str, str, str]) -> dict:
             tree = ast.parse(src)
             if kind == "unparse":
                 new = ast.unparse(tree) + "\n"
+            elif kind == "rename-locals":
+                new = ast.unparse(ast.fix_missing_locations(_RenameLocals().visit(tree))) + "\n"
+            elif kind == "negate-if":
+                new = ast.unparse(ast.fix_missing_locations(_NegateIf().visit(tree))) + "\n"
             elif kind == "pad":
                 new = "\n\n\n# padding\n" + src.replace("\n    def ", "\n\n    def ")
             else:
